@@ -1,7 +1,7 @@
 #!/bin/bash
-# usage: seedtest.sh <seeded-dir>   (dir with patch.diff, demo/<relative paths>, optional meta.json)
-# Confirms a seeded change in the scratch worktree /var/tmp/frp-mut: builds, pinned tests pass, demo passes without
-# and fails with the change; then runs the frpsa checks given in $PROPS (default: property in dir name) on it.
+# usage: seedtest.sh <seeded-dir>   (dir with patch.diff, demo/<relative paths>)
+# Confirms a seeded change in the scratch worktree /var/tmp/frp-mut (at /repo's HEAD): the change builds, the pinned
+# tests pass with it, the demo fails with it and passes without it; then runs the frpsa checks in $PROPS on it.
 set -u
 export GOFLAGS=-mod=mod GOPROXY=off GOSUMDB=off GOTOOLCHAIN=local; unset GOWORK
 D=$(realpath "$1"); W=/var/tmp/frp-mut
@@ -9,17 +9,15 @@ PROPS=${PROPS:-$(echo "$D" | grep -o "C[0-9][0-9]" | tail -1)}
 reset() { git -C $W checkout -q -- . ; git -C $W clean -fdq; }
 reset
 git -C $W checkout -q --detach $(git -C /repo rev-parse HEAD)
-# demo packages
 PKGS=$(cd "$D/demo" 2>/dev/null && find . -name '*.go' -printf '%h\n' | sort -u)
-cp -r "$D/demo/." $W/ 2>/dev/null
-echo "== demo WITHOUT change"
-for p in $PKGS; do (cd $W && go test -vet=off -count=1 -run "${DEMO_RUN:-.}" $p 2>&1 | tail -3); done
-if ! git -C $W apply "$D/patch.diff"; then echo "PATCH DOES NOT APPLY"; reset; exit 2; fi
-echo "== build + pinned tests WITH change"
-(cd $W && go build ./... && go test -vet=off -count=1 -run "^Test[^DZ]" ./pkg/... 2>&1 | grep -v "no test files" | grep -v "^ok" | grep -v "^20" | head)
-echo "== demo WITH change"
-for p in $PKGS; do (cd $W && go test -vet=off -count=1 -run "${DEMO_RUN:-.}" $p 2>&1 | tail -4); done
-# remove demo files before analysing (the checks read product code only; demos are test files anyway)
+if ! git -C $W apply "$D/patch.diff"; then echo "RESULT patch=DOES-NOT-APPLY"; reset; exit 2; fi
+B=ok; (cd $W && go build ./... >/dev/null 2>&1) || B=FAIL
+T=ok; (cd $W && go test -vet=off -count=1 ./pkg/... 2>&1 | grep -q "^FAIL\|^---FAIL\|panic:") && T=FAIL
 echo "== frpsa on the changed tree"
-for P in $PROPS; do /verif/bin/frpsa check -prop $P -repo $W -verif /tmp/ev-mut 2>&1 | grep -E "^(VIOLATED|UNDECIDED|KNOWN|C[0-9]+ quick|ERROR)" ; done
+for P in $PROPS; do /verif/bin/frpsa check -prop $P -repo $W -verif /tmp/ev-mut 2>&1 | grep -E "^(VIOLATED|UNDECIDED|KNOWN|C[0-9]+ quick|ERROR)" | cut -c1-300; done
+cp -r "$D/demo/." $W/ 2>/dev/null
+WITH=pass; for p in $PKGS; do (cd $W && go test -vet=off -count=1 -run "${DEMO_RUN:-.}" $p 2>&1 | grep -q "^FAIL\|panic:") && WITH=fail; done
+git -C $W apply -R "$D/patch.diff"
+WITHOUT=pass; for p in $PKGS; do (cd $W && go test -vet=off -count=1 -run "${DEMO_RUN:-.}" $p 2>&1 | grep -q "^FAIL\|panic:") && WITHOUT=fail; done
+echo "RESULT build=$B pinned=$T demo_with_change=$WITH demo_without_change=$WITHOUT  (want: ok ok fail pass)"
 reset
